@@ -10,7 +10,10 @@ POOL = ["abc", "357", "ABC", "!@", "é", "ñü", "€", "😀", "日本", "aA1!"
         "q", "Zz", "ß€😀", "a", "1", "*", "abcdefghijklmnopqrstuvwxyz", "éèêë", "09", "lI", "S5", "あいう", "aé€😀", "",
         # characters a careless loop drops or merges: the replacement character itself, blanks, a combining mark, characters outside
         # the BMP, a zero-width joiner
-        "xy\ufffd", "\ufffd", " ", "\t ", "\u00a0", "a b", "e\u0301", "𝓍𝒳", "a\u200db"]
+        "xy\ufffd", "\ufffd", " ", "\t ", "\u00a0", "a b", "e\u0301", "𝓍𝒳", "a\u200db",
+        # Latin-1 characters whose code points are the UTF-8 BYTES of other pool characters (é = C3 A9, € = E2 82 AC): a lookup that
+        # goes byte by byte takes them for one another
+        "Ã", "©", "Ã©", "â¬", "Ãé"]
 
 DEFAULT_BUDGET = (200, 1, 1000000000)
 # T = 200 only with the default limit (the model decides it through the proved guard band); other limits with small T
